@@ -92,13 +92,6 @@ def run_case(seed, tier, rec, st):
             for label, d, path, injected in inputs:
                 rec.evaluation()
                 snap = fingerprint(d)
-                # reference
-                try:
-                    exp = ("ok", ref.dec(t, d, Ctx()))
-                except RefError as e:
-                    exp = ("raise", e)
-                except RecursionError:
-                    continue
                 routes = [("codec", lambda: dec.decode(d))]
                 if rng.random() < 0.15:
                     routes.append(("func", lambda: mbasic.decode(d, tt)))
@@ -106,11 +99,22 @@ def run_case(seed, tier, rec, st):
                     routes.append(("mixin-field", lambda: W.from_dict({"x": d}).x))
                 else:
                     routes.append(("plain-field", lambda: wdec.decode({"x": d}).x))
+                # the library goes first: the reference must not warm anything up for it (e.g. Flag(7) creates and
+                # caches the composite pseudo-member the first time it is asked for)
+                observed = []
                 for rname, fn in routes:
                     try:
-                        got = ("ok", fn())
+                        observed.append((rname, ("ok", fn())))
                     except Exception as ex:
-                        got = ("raise", ex)
+                        observed.append((rname, ("raise", ex)))
+                # reference
+                try:
+                    exp = ("ok", ref.dec(t, d, Ctx()))
+                except RefError as e:
+                    exp = ("raise", e)
+                except RecursionError:
+                    continue
+                for rname, got in observed:
                     if d is None and tast.strip(t)[0] == "tv" and rname in ("codec", "func"):
                         # a bound TypeVar acts as Optional[bound] in field / nested positions; at the root of a
                         # codec there is no enclosing position, both outcomes are accepted there
